@@ -26,9 +26,17 @@ Import ListNotations.
    ports = the listening ports actually open (0 when not open), as returned by get_listening_ports *)
 
 (* what the property says must be sent: the same, with the favourite rooms iff auto_join *)
-Definition spec_burst (s : settings) (ports : nat * nat) (shares : nat * nat) : list bmsg :=
+(* the branch position: top of the own branch and looking for a parent when there is no distributed parent,
+   else one level below the parent in the parent's branch and not looking *)
+Definition spec_branch (parent : option (nat * nat)) : list bmsg :=
+  match parent with
+  | None => [BranchLevel 0; BranchRoot 0; ToggleParentSearch true]
+  | Some (lvl, root) => [BranchLevel (S lvl); BranchRoot root; ToggleParentSearch false]
+  end.
+
+Definition spec_burst (s : settings) (ports : nat * nat) (shares : nat * nat) (parent : option (nat * nat)) : list bmsg :=
   [SetListenPort (fst ports) (if Nat.eqb (snd ports) 0 then 0 else 1) (snd ports)]
-  ++ [BranchLevel 0; BranchRoot 0; ToggleParentSearch true]
+  ++ spec_branch parent
   ++ [CheckPrivileges; SetStatusOnline]
   ++ AddUser 0 :: map AddUser (s_friends s)
   ++ [TogglePrivateRoomInvites (s_invites s)]
@@ -57,6 +65,7 @@ Inductive event :=
 | Parents                                (* server sends potential parents; the peer connects stay pending *)
 | Lost (r : reason)                      (* connection lost, noticed by the reader / an ordinary send / disconnect_server() *)
 | LostInTracking (r : reason)            (* write error / timeout noticed inside a user tracking task *)
+| ParentUp                               (* a distributed parent connection is established (independent of the server connection) *)
 | Tick (ok : bool)                       (* reconnect.timeout passes; the server accepts (ok) or refuses the connect *)
 | Command
 | Stop.
@@ -143,10 +152,11 @@ Definition step (auto : bool) (x : st) (e : event) : st * list out :=
       | Closed =>
           if watchdog x then
             if ok then (mkSt Connected (session x) (msession x) (derived x) false (watchdog x) (parents x) (stopped x) true, [OConnect; OLoginSent])
-            else let '(y, o) := closed RRead x in (y, OConnect :: o)     (* failed attempt: CLOSED (CONNECT_FAILED) is notified again *)
+            else let '(y, o) := closed RConnectFailed x in (y, OConnect :: o)     (* failed attempt: CLOSING/CLOSED with CONNECT_FAILED *)
           else (x, [])
       | _ => (x, [])
       end
+  | ParentUp => (x, [])
   | Command => (x, [if session x then OSent else ORefused])
   | Stop =>
       (* Network.disconnect() cancels the watchdog (C16-N1 repaired); the services' stop() cancels the user
